@@ -166,6 +166,8 @@ pub trait Elem:
     const HAS_GEN: bool;
     /// whether construction/drop is tracked in the registry
     const TRACKED: bool;
+    /// whether `clone` ticks the Clone fuse counter (false for the `Copy` byte types)
+    const COUNTS_CLONE: bool = true;
     fn make(id: u32, gen: u16) -> Self;
     fn id(&self) -> u32;
     fn gen(&self) -> u16;
@@ -230,6 +232,7 @@ macro_rules! common_traits {
 pub struct B1(pub u8);
 impl Elem for B1 {
     const NAME: &'static str = "B1";
+    const COUNTS_CLONE: bool = false;
     const ID_SPACE: u32 = 256;
     const HAS_GEN: bool = false;
     const TRACKED: bool = false;
@@ -253,6 +256,7 @@ common_traits!(B1);
 pub struct B2(pub u16);
 impl Elem for B2 {
     const NAME: &'static str = "B2";
+    const COUNTS_CLONE: bool = false;
     const ID_SPACE: u32 = 65536;
     const HAS_GEN: bool = false;
     const TRACKED: bool = false;
@@ -278,6 +282,7 @@ common_traits!(B2);
 pub struct B3(pub [u8; 3]);
 impl Elem for B3 {
     const NAME: &'static str = "B3";
+    const COUNTS_CLONE: bool = false;
     const ID_SPACE: u32 = 1 << 24;
     const HAS_GEN: bool = false;
     const TRACKED: bool = false;
@@ -306,6 +311,7 @@ pub struct B6 {
 }
 impl Elem for B6 {
     const NAME: &'static str = "B6";
+    const COUNTS_CLONE: bool = false;
     const ID_SPACE: u32 = u32::MAX;
     const HAS_GEN: bool = false;
     const TRACKED: bool = false;
@@ -329,7 +335,7 @@ impl Elem for B6 {
 common_traits!(B6);
 
 /// 8 bytes, align 4, no drop glue: the `drop: None` paths of the raw table.
-#[derive(Clone, Copy)]
+/// Deliberately `Clone` but not `Copy`, with an observable `clone` (it ticks the Clone fuse).
 #[repr(C)]
 pub struct P8 {
     id: u32,
@@ -356,6 +362,13 @@ impl Elem for P8 {
             crate::viol!("garbage P8 element: id {:#x} gen {:#x} chk {:#x}", self.id, self.gen, self.chk);
         }
         ok
+    }
+}
+impl Clone for P8 {
+    fn clone(&self) -> Self {
+        fuse::tick(Class::Clone);
+        self.check();
+        P8 { id: self.id, gen: self.gen, chk: self.chk }
     }
 }
 common_traits!(P8);
